@@ -315,6 +315,7 @@ PROPS = {
         subs=[
             rapid("bridge", "TestC16Bridge", 10000, 100000),
             enum("signature-table", "TestC16SignatureTable"),
+            rapid("conversion-rule", "TestC16ConversionRule", 3000, 30000),
         ],
     ),
     "C17": dict(
